@@ -91,3 +91,10 @@ Theorem C04_wiring_only_scale_wiring : StepsC04.only_scale_wiring =
 Proof. reflexivity. Qed.
 Print Assumptions C04_wiring_only_scale_wiring.
 
+(* ---- centroids (added after every property had a check): a (not scale-only) alignment brings the centroid of the
+   estimate positions used for the fit onto the centroid of the reference positions used for the fit ---- *)
+Theorem C04_alignment_matches_centroids_of_the_poses_used : forall svd eps (P ref : list PoseR) cs n P' r t c,
+  take n (positions P) <> [] -> @align R _ svd eps P ref cs false n = Some (P', (r, t, c)) ->
+  mean (take n (positions P')) = mean (take n (positions ref)).
+Proof. exact align_matches_centroids. Qed.
+Print Assumptions C04_alignment_matches_centroids_of_the_poses_used.
